@@ -42,6 +42,7 @@ func runC02(c *core.Ctx) {
 	ruleXRefStreamRows(c, "C02-R11")
 	ruleObjStmHeader(c, "C02-R12")
 	ruleObjStmSlots(c, "C02-R13")
+	ruleDeferredQueueDetached(c)
 	ruleWriterSideDefaults(c, "C02-R14") // a file the reader cannot authenticate does not round-trip
 }
 
@@ -924,4 +925,68 @@ func ruleXRefWidthAgreement(c *core.Ctx) {
 	if inUse == 0 {
 		c.Check(rule, fn.Key+"/emissions", "in-use rows found", func(o *core.Ob) { core.Undecided("no encodeInt64 emission for type 1/2 rows found") })
 	}
+}
+
+// ruleDeferredQueueDetached (C02-R15): objects put while a stream is open are
+// queued and written when the stream is closed.  Writing a queued stream
+// object opens and closes another stream, which re-enters this drain; the
+// queue must therefore be detached (the field reset) before the first queued
+// object is written, and the loop must run over the detached copy.  Otherwise
+// the nested Close replays the queue from the start and the outer Close fails
+// with "object already written".
+func ruleDeferredQueueDetached(c *core.Ctx) {
+	c.Check("C02-R15", "pdf.(*streamWriter).Close/drain", "the queue of deferred objects is detached before it is drained (writing a deferred stream object re-enters Close)", func(o *core.Ob) {
+		fn := c.Prog.Func("pdf", "(*streamWriter).Close")
+		g := fn.Graph()
+		info := fn.Info()
+		isQueue := func(e ast.Expr) bool {
+			sel, ok := ast.Unparen(e).(*ast.SelectorExpr)
+			return ok && sel.Sel.Name == "afterStream"
+		}
+		var loop *core.V
+		for _, h := range loopHeads(g) {
+			if h.Cond.Range == nil {
+				continue
+			}
+			// the loop whose body puts objects
+			hasPut := false
+			for _, cs := range core.CallsIn(info, h.Cond.Range.Body, false) {
+				if cs.Key == "pdf.(*Writer).Put" {
+					hasPut = true
+				}
+			}
+			if hasPut {
+				loop = h
+			}
+		}
+		if loop == nil {
+			core.Undecided("drain loop not found")
+		}
+		rs := loop.Cond.Range
+		o.At(fn.Site(rs, "drain loop"))
+		o.Count(1)
+		if isQueue(rs.X) {
+			o.FailAt(fn.Site(rs, ""), "%s: the drain loop ranges over the queue field itself: a queued stream object re-enters Close, which sees the same queue and writes its first element again", c.Prog.Pos(rs.Pos()))
+			return
+		}
+		// the local it ranges over was taken from the queue, and the queue is reset before the loop
+		src := core.ObjOf(info, rs.X)
+		fromQueue := false
+		if src != nil {
+			for _, d := range core.AssignsTo(info, fn.Decl, src) {
+				if as, ok := d.(*ast.AssignStmt); ok && len(as.Rhs) == 1 && isQueue(as.Rhs[0]) {
+					fromQueue = true
+				}
+			}
+		}
+		o.Require(fromQueue, "the drain loop does not run over the deferred queue")
+		reset := false
+		for _, v := range g.Vs {
+			if as, ok := v.AST.(*ast.AssignStmt); ok && len(as.Lhs) == 1 && isQueue(as.Lhs[0]) && g.Dominates(v, loop) {
+				reset = true
+				o.At(fn.Site(as, "queue detached"))
+			}
+		}
+		o.Require(reset, "the queue field is not reset before the drain loop starts")
+	})
 }
